@@ -477,3 +477,121 @@ def _sln(s):
 def to_np(T, x):
     """array returned by cola -> something T.eq accepts (identity; kept for symmetry)"""
     return x
+
+
+# ---- seeded random operator trees (bounded grammar) ------------------------------------------------------------------------------------
+def random_trees(seed, count, max_depth=3, dtypes=("float64", "complex64", "float32", "complex128"), max_dim=6, square=False):
+    """`count` distinct operator trees drawn from the tree grammar with a private generator (reproducible from `seed`).  Shapes are chosen
+    top-down so that every combinator is well-formed; dimensions stay <= max_dim.  Not generated (each is tied to a recorded finding or
+    needs a true declaration): annotated leaves, FFT, index arrays with repeated entries."""
+    import random
+    rng = random.Random(seed)
+    F8 = "float64"
+
+    def dt():
+        return rng.choice(dtypes) if rng.random() < 0.4 else F8
+
+    def leaf(m, n):
+        if m != n:
+            return ["dense", m, n, dt()]
+        kinds = ["dense", "diag", "scalar", "identity", "tri", "perm", "householder"] + (["tridiag"] if n >= 2 else [])
+        k = rng.choice(kinds)
+        if k == "dense":
+            return ["dense", n, n, dt()]
+        if k == "tri":
+            return ["tri", n, rng.randint(0, 1), dt()]
+        if k == "perm":
+            p = list(range(n))
+            rng.shuffle(p)
+            return ["perm", p, rng.choice([F8, "float32", "complex64"])]
+        if k == "householder":
+            return ["householder", n, rng.choice([F8, "complex128"])]
+        return [k, n, dt()]
+
+    def factor(n):
+        """ordered factorisations n = a * b with a, b >= 1"""
+        return [(a, n // a) for a in range(1, n + 1) if n % a == 0]
+
+    def gen(m, n, depth):
+        if depth == 0 or rng.random() < 0.15:
+            return leaf(m, n)
+        options = ["product", "sum", "transpose", "adjoint", "T", "H", "sliced", "generic"]
+        if m * n > 1:
+            options += ["kron", "kron"]
+        if m == n and n > 1 and len(factor(n)) > 2:
+            options += ["kronsum"]
+        if m >= 2 and n >= 2:
+            options += ["blockdiag", "blockdiag", "concat"]
+        if m >= 2 or n >= 2:
+            options += ["concat"]
+        k = rng.choice(options)
+        d = depth - 1
+        if k == "product":
+            nf = rng.choice([2, 2, 3])
+            dims = [m] + [rng.randint(1, 3) for _ in range(nf - 1)] + [n]
+            return ["product"] + [gen(dims[i], dims[i + 1], d) for i in range(nf)]
+        if k == "sum":
+            return ["sum"] + [gen(m, n, d) for _ in range(rng.choice([2, 2, 3]))]
+        if k in ("transpose", "adjoint", "T", "H"):
+            return [k, gen(n, m, d)]
+        if k == "generic":
+            return ["generic", gen(m, n, d)]
+        if k == "sliced":
+            M, N = min(max_dim, m + rng.randint(0, 2)), min(max_dim, n + rng.randint(0, 2))
+
+            def sel(small, big):
+                if small == big and rng.random() < 0.5:
+                    return rng.choice([["s", None, None, None], ["s", None, None, -1]])
+                if rng.random() < 0.5:
+                    idx = rng.sample(range(big), small)
+                    return ["i", [i if rng.random() < 0.7 else i - big for i in idx]]
+                start = rng.randint(0, big - small)
+                return ["s", start, start + small, None]
+            return ["sliced", gen(M, N, d), sel(m, M), sel(n, N)]
+        if k == "kron":
+            (m1, m2), (n1, n2) = rng.choice(factor(m)), rng.choice(factor(n))
+            subs = [gen(m1, n1, d), gen(m2, n2, d)]
+            if rng.random() < 0.3:
+                subs.insert(rng.randint(0, 2), leaf(1, 1))
+            return ["kron"] + subs
+        if k == "kronsum":
+            a, b = rng.choice([f for f in factor(n) if 1 < f[0] < n])
+            return ["kronsum", gen(a, a, d), gen(b, b, d)]
+        if k == "blockdiag":
+            # m = m1 * k1 + m2, n = n1 * k1 + n2 (second block optional)
+            k1 = rng.choice([c for c in (1, 2, 3) if c <= min(m, n)])
+            cands = [(a, b) for a in range(1, m // k1 + 1) for b in range(1, n // k1 + 1)
+                     if (m - a * k1 == 0) == (n - b * k1 == 0)]
+            if not cands:
+                return gen(m, n, depth)
+            a, b = rng.choice(cands)
+            blocks, mult = [gen(a, b, d)], [k1]
+            if m - a * k1 > 0:
+                blocks.append(gen(m - a * k1, n - b * k1, d))
+                mult.append(1)
+            return ["blockdiag", blocks, mult]
+        if k == "concat":
+            axis = 0 if (m >= 2 and (n < 2 or rng.random() < 0.5)) else 1
+            tot = m if axis == 0 else n
+            cut = rng.randint(1, tot - 1)
+            if axis == 0:
+                return ["concat", [gen(cut, n, d), gen(m - cut, n, d)], 0]
+            return ["concat", [gen(m, cut, d), gen(m, n - cut, d)], 1]
+        raise AssertionError(k)
+
+    out, seen = [], set()
+    tries = 0
+    while len(out) < count and tries < 50 * count:
+        tries += 1
+        if square:
+            m = n = rng.choice([1, 2, 2, 3, 3, 4])
+        else:
+            m, n = rng.choice([1, 2, 2, 3, 3, 4]), rng.choice([1, 2, 2, 3, 3, 4])
+        t = gen(m, n, rng.randint(1, max_depth))
+        name = tree_name(t)
+        if name in seen or len(name) > 160 or t[0] in ("dense", ):
+            continue
+        assert tree_shape(t) == (m, n), (t, m, n)
+        seen.add(name)
+        out.append(t)
+    return out
